@@ -6,7 +6,8 @@ CHECK = dict(
     floor={"tsan:buffer_elements_checked": 10000, "plain:buffer_elements_checked": 100000,
            "tsan:value_updates_true": 100, "plain:value_updates_true": 1000,
            "plain:value_burst_assignments_failed_by_failpoint": 500, "tsan:value_burst_assignments_failed_by_failpoint": 50,
-           "plain:value_assignments_failed_by_failpoint": 100},
+           "plain:value_assignments_failed_by_failpoint": 100, "plain:string_value_bursts_checked": 10000,
+           "tsan:string_value_bursts_checked": 1000},
     assumptions=[
         "an assignment whose payload copy throws (failpoint) has not assigned anything: it must leave nothing visible to the consumer",
         "documented usage only: any number of producers + one consumer on a TransactionalBuffer; one producer + one consumer on a TransactionalValue",
